@@ -604,9 +604,149 @@ fn sections_ext<A: Al>(suffix: &'static str, handles_last: bool, scale: usize, e
     ]
 }
 
+
+// ------------------------------------------------------------------------------------------
+// zero-sized payload with a destructor: nothing to allocate for the value, but the handles still count and the last one
+// still has to run the destructor, exactly once
+
+/// ops: 0 from value (CArc), 1 from value (CArcSome), 2 from Arc (CArc), 3 clone(i%n), 4 transpose(i%n) round trip,
+/// 5 into_opaque(i%n), 6 drop(0), 7 drop(last)
+fn zst_seq(ops: &[u8]) -> Result<u64, (String, String)> {
+    use instr::DcZst;
+    enum Z {
+        A(CArc<DcZst>),
+        S(CArcSome<DcZst>),
+        OA(CArc<c_void>),
+        OS(CArcSome<c_void>),
+    }
+    DcZst::reset();
+    // every handle refers to the allocation with this index; allocs[k] = number of live handles
+    let mut hs: Vec<(Z, usize)> = Vec::new();
+    let mut live: Vec<usize> = Vec::new();
+    let mut obs: Vec<u64> = Vec::new();
+    for (step, op) in ops.iter().enumerate() {
+        let n = hs.len();
+        match *op {
+            0 => {
+                hs.push((Z::A(CArc::from(DcZst::new())), live.len()));
+                live.push(1);
+            }
+            1 => {
+                hs.push((Z::S(CArcSome::from(DcZst::new())), live.len()));
+                live.push(1);
+            }
+            2 => {
+                hs.push((Z::A(CArc::from(Arc::new(DcZst::new()))), live.len()));
+                live.push(1);
+            }
+            3 if n > 0 => {
+                let i = step % n;
+                let a = hs[i].1;
+                let c = match &hs[i].0 {
+                    Z::A(h) => Z::A(h.clone()),
+                    Z::S(h) => Z::S(h.clone()),
+                    Z::OA(h) => Z::OA(h.clone()),
+                    Z::OS(h) => Z::OS(h.clone()),
+                };
+                live[a] += 1;
+                hs.push((c, a));
+            }
+            4 if n > 0 => {
+                let i = step % n;
+                let (h, a) = hs.remove(i);
+                let nh = match h {
+                    Z::A(h) => Z::S(h.transpose().expect("non-empty")),
+                    Z::S(h) => Z::A(h.transpose()),
+                    Z::OA(h) => Z::OS(h.transpose().expect("non-empty")),
+                    Z::OS(h) => Z::OA(h.transpose()),
+                };
+                hs.insert(i, (nh, a));
+            }
+            5 if n > 0 => {
+                let i = step % n;
+                let (h, a) = hs.remove(i);
+                let nh = match h {
+                    Z::A(h) => Z::OA(h.into_opaque()),
+                    Z::S(h) => Z::OS(h.into_opaque()),
+                    o => o,
+                };
+                hs.insert(i, (nh, a));
+            }
+            6 if n > 0 => {
+                let (h, a) = hs.remove(0);
+                live[a] -= 1;
+                drop(h);
+            }
+            7 if n > 0 => {
+                let (h, a) = hs.pop().unwrap();
+                live[a] -= 1;
+                drop(h);
+            }
+            _ => {}
+        }
+        let (made, gone) = DcZst::stats();
+        let want_gone = live.iter().filter(|c| **c == 0).count() as u64;
+        if made != live.len() as u64 || gone != want_gone {
+            let d = format!("step {} op {}: {} zero-sized payload(s) created, {} destroyed; {} allocation(s) have no handle left (handles per allocation {:?})", step, op, made, gone, want_gone, live);
+            std::mem::forget(hs);
+            return Err((if gone < want_gone { "arc:zst_payload_not_destroyed" } else { "arc:zst_payload_destroyed_early" }.into(), d));
+        }
+        obs.push(digest(&(made, gone, hs.len())));
+    }
+    while let Some((h, a)) = hs.pop() {
+        live[a] -= 1;
+        drop(h);
+        let (_, gone) = DcZst::stats();
+        let want_gone = live.iter().filter(|c| **c == 0).count() as u64;
+        if gone != want_gone {
+            return Err((if gone < want_gone { "arc:zst_payload_not_destroyed" } else { "arc:zst_payload_destroyed_early" }.into(), format!("teardown: {} destroyed, {} allocation(s) without a handle", gone, want_gone)));
+        }
+    }
+    Ok(digest(&obs))
+}
+
+fn zst_case(ops: &[u8]) -> CaseOut {
+    alloc::begin();
+    let r = std::panic::catch_unwind(|| zst_seq(ops));
+    let rep = alloc::end();
+    match r {
+        Err(_) => CaseOut::bad("panic", "panicked".to_string()),
+        Ok(Err((s, d))) => CaseOut::bad(s, d),
+        Ok(Ok(o)) => CaseOut { obs: o, nontrivial: !ops.is_empty(), violation: alloc_violation(&rep) },
+    }
+}
+
+fn zst_section() -> Section {
+    Section {
+        name: "zst_payload",
+        explore: Box::new(|cx: &Cx| {
+            let depth = cx.tier.pick(5, 6);
+            cx.rule("zst_payload", &format!("zero-sized payload with a destructor: every sequence of <= {} operations over {{from value (CArc / CArcSome), from Arc, clone, transpose, into_opaque, drop first, drop last}}; oracle after every step: one payload exists per allocation and it is destroyed exactly when the allocation has no handle left; allocator balanced", depth));
+            fn rec(cx: &Cx, seq: &mut Vec<u8>, depth: usize) {
+                let case = serde_json::json!({"zst_ops": seq});
+                cx.eval("zst_payload", &case, || zst_case(seq));
+                if seq.len() == depth {
+                    return;
+                }
+                for op in 0..8u8 {
+                    seq.push(op);
+                    rec(cx, seq, depth);
+                    seq.pop();
+                }
+            }
+            rec(cx, &mut Vec::new(), depth);
+        }),
+        replay: Box::new(|c: &Value| {
+            let ops: Vec<u8> = serde_json::from_value(c["zst_ops"].clone()).unwrap();
+            zst_case(&ops)
+        }),
+    }
+}
+
 fn main() {
     quiet_panics();
     let mut sections = sections_for::<()>("", false, 0);
+    sections.push(zst_section());
     sections.extend(sections_for::<()>("_handles_last", true, 0));
     sections.extend(sections_for::<A64>("_align64", false, 1));
     sections.extend(sections_for::<A64>("_align64_handles_last", true, 1));
